@@ -18,12 +18,16 @@ THEOREMS = [
     "XmlDiffModel.C02_load_dump",
     "XmlDiffModel.C02_dump_ascii_printable",
     "XmlDiffModel.C02_dump_no_line_break",
+    "XmlDiffModel.C02_parse_format",
+    "XmlDiffModel.C02_one_line_per_action",
+    "XmlDiffModel.C02_pipeline",
 ]
 PARTIAL = {
-    "C02_parse_format (full statement)": "proved: json.dumps/loads round trip for every string and None, and that dumped values "
-    "are printable ASCII (hence no line-break character and one action per line); NOT proved yet: parse(format(script)) = script "
-    "for the whole line grammar (splitlines, field scanner, strip, dispatch) - decided per run by unit U6 on the model and by "
-    "the round-trip oracle on the real code",
+    "C02_namespaced_and_glue": "proved for every action list of any length: parse(format(script)) = script through the whole line "
+    "grammar (splitlines, bracket / continuation logic, JSON-aware field splitter, strip, dispatch, int, json.loads), one line per "
+    "action, and hence the same patcher run - under the decidable guard ActionOK (node paths of the generated form; tag, attribute, "
+    "prefix and URI strings without comma, double quote or white space; texts, values and comments unrestricted). NOT proved: file / "
+    "stream I/O of the commands and prefixed-path registration, which are observed per run by the pipeline oracles.",
 }
 LEAN_MODULES = ["XmlDiffModel.Props.C02"]
 SOURCES = ["formatting.DiffFormatter", "patch.DiffParser", "patch._split_fields", "main.patch_text", "main.patch_file", "main.diff_texts"]
